@@ -71,6 +71,7 @@ class Opts:
         self.adversarial_leaf_names = False
         self.pair_pct = 12
         self.bundle_port_pct = 50
+        self.strided = True
         self.array_pct = 22
         self.history = False  # C04: an interleaved history of connect / replace / disconnect operations per module
         self.avoid_known = True  # do not construct the triggers of open known findings (counted as redirects)
@@ -146,6 +147,8 @@ class ModGen:
         else:
             if o.slices:
                 opts.append(("slice_sig", 25))
+                if o.strided and w >= 2:
+                    opts.append(("slice_strided", 7))
             if depth < o.max_depth:
                 if o.concats:
                     opts.append(("cat", 22 if w >= 2 else 4))
@@ -164,6 +167,27 @@ class ModGen:
             a = d.int(0, s[1] - w)
             self.feats.add("slice")
             return ["slice", ["sig", s[0]], self.slice_index(s[1], a, w)]
+        if kind == "slice_strided":
+            # w >= 2 bits taken with a step other than 1 (reversed and / or strided), bounds explicit and in range
+            step = d.choice([-1, -1, 2, -2, 3, -3])
+            span = (w - 1) * abs(step) + 1
+            if depth < o.max_depth and o.concats and d.bool(30):
+                W = span + d.int(0, 2)
+                parent = self.expr(W, depth + 1, False, cur)
+                self.feats.add("strided_slice_of_" + {"cat": "concat", "slice": "slice", "sig": "signal"}.get(parent[0], parent[0]))
+            else:
+                sg = self.sig_of_width(lambda x: x >= span, lambda: span + d.int(0, 2))
+                W = sg[1]
+                parent = ["sig", sg[0]]
+            a = d.int(0, W - span)
+            if step > 0:
+                idx = [a, a + span if d.bool(60) or a + span < W else None, step]
+            else:
+                idx = [a + span - 1, (a - 1) if a > 0 else None, step]
+            self.feats.add("strided_slice")
+            if step < 0:
+                self.feats.add("reversed_slice")
+            return ["slice", parent, idx]
         if kind == "cat":
             k = d.int(2, min(3, w)) if w >= 2 else 1
             if k == 1 or d.bool(8):
